@@ -2,7 +2,7 @@
 From Coq Require Import List Arith Bool ZArith Reals Lra Lia.
 From P Require Import Geom Comb.
 From Gen Require Import GenRefine GenArea GenPos GenDecomp.
-From P Require Import Model.
+From P Require Import Model Conform.
 Import ListNotations.
 Open Scope nat_scope.
 
@@ -64,6 +64,23 @@ Proof.
   destruct (tt_case_ok_children _ _ (transition_type_total_ _ _ Hnn Hs Hne)) as (istart & e & key & Hr & Hlt & (ents & Hi1 & Hi2) & Hsub).
   exists istart, e. split; [auto|].
   apply (transition_table_pos_gen _ _ _ _ Hi1 Hi2); auto.
+Qed.
+
+(** conformity of one column in global node names: for whatever sidenodes dict (predicate sn on
+    unordered name pairs) leaves at least one side of a 3/4-node column refined, refine() finds an
+    entry whose boundary (interior edges cancelled) is, side by side, the unsplit side or the
+    side split at the mid-side node of its unordered name pair *)
+Lemma refine_boundary_named_ (sn : nat * nat -> bool) (col : list nat) (cid : nat) :
+  length col = 3 \/ length col = 4 -> refined_sides sn col <> [] ->
+  exists istart e, refine_children (length col) (refined_sides sn col) = Some (istart, e) /\
+    eseteq (boundary (all_edges (length col) istart e)) (expected_boundary (length col) (refined_sides sn col)) = true /\
+    map (gname_edge col cid) (expected_boundary (length col) (refined_sides sn col)) = flat_map (gside sn col) (seq 0 (length col)).
+Proof.
+  intros Hnn Hne.
+  destruct (tt_case_ok_children _ _ (transition_type_total_ _ _ Hnn (refined_sides_is_side_set sn col) Hne))
+    as (istart & e & key & Hr & Hlt & _ & Hsub).
+  exists istart, e. split; [auto|]. split; [|apply expected_boundary_named_].
+  unfold subdivision_ok in Hsub. apply andb_true_iff in Hsub. destruct Hsub as [_ H]. exact H.
 Qed.
 
 (** non-vacuity of the convexity hypotheses: the unit square with its centre, a triangle *)
